@@ -421,8 +421,9 @@ def shards(tier, seed):
         out.append(("pct_%d" % i, dict(kind="pct", scenarios=8 if q else 40, per=12 if q else 60)))
     for i in range(2 if q else 12):
         out.append(("every_instruction_%d" % i, dict(kind="random", scenarios=(18 if q else 72), per=4 if q else 20, instr="ALL", pswitch=(0.003, 0.01, 0.03), offset=i * 9)))
-    for i in range(6 if q else 16):
-        out.append(("stores_%d" % i, dict(kind="stores", scenarios=5 if q else 40, maxpos=150, limit2=30 if q else 400, offset=i * 5)))
+    nst = 6 if q else 16
+    for i in range(nst):
+        out.append(("stores_%d" % i, dict(kind="stores", scenarios=6 if q else 40, maxpos=150, limit2=30 if q else 400, offset=i, stride=nst)))
     out.append(("child_stores", dict(kind="stores", scenarios=4 if q else 30, maxpos=150, limit2=20 if q else 300, offset=3, _pyopt="opt")))
     out.append(("child_random", dict(kind="random", scenarios=8 if q else 40, per=8 if q else 40, instr=True, _pyopt="opt+hashseed")))
     out.append(("prod_random", dict(kind="prod", cname="SECP112r2", scenarios=2 if q else 12, per=4 if q else 20)))
@@ -454,12 +455,15 @@ def run(ctx, name, kind, **kw):
             # every load of a name that is stored somewhere): few per operation, so EVERY single-preemption schedule of a pair of
             # operations is run, then sampled pairs of preemptions
             ctx.count("stored_names_monitored", len(hooks.stored_names))
-            pairs = list(DIRECTED)
-            rng.shuffle(pairs)
-            for si in range(kw["scenarios"]):
+            # every directed pair is run by some shard of every run (shard i takes pairs i, i+stride, ...), on a curve object that is
+            # aged three times out of four; one further scenario per shard pairs two random operations
+            pairs = list(DIRECTED)[kw.get("offset", 0):: kw.get("stride", 1)] if kw.get("stride") else list(DIRECTED)
+            todo = [(a, b, (70, 300, 0, 1100)[j % 4]) for j, (a, b) in enumerate(pairs)][: kw["scenarios"]]
+            todo.append((rng.choice(OPS), rng.choice(OPS), rng.choice((0, 70))))
+            for (a, b, age) in todo:
                 curve, dom = toy_pick(rng)
                 sc = Scenario(rng, curve, dom, 2)
-                a, b = pairs[(si + kw.get("offset", 0)) % len(pairs)] if si % 4 else (rng.choice(OPS), rng.choice(OPS))
+                sc.age = age
                 if rng.random() < 0.5:
                     a, b = b, a
                 sc.plans[0] = [(a, sc.plans[0][0][1], sc.plans[0][0][2])]
